@@ -8,7 +8,7 @@ CHECKS = {
          "TLC model check of Dhcp4Wire (scaled constants) + trace validation of real ToBytes/FromBytes calls against the spec"),
  "C04": ("6", "options scanner as a TLA+ step machine cross-checked against the recursive Dec4 operator for every small options area; every recorded FromBytes call (exhaustive small scope enumerated on the Go side too, truncations, corruptions, random) must equal Dec4(in)",
          "TLC exhaustive small-scope scanner machine + trace validation of real FromBytes calls against Dec4"),
- "C06": ("6", "recorded FromBytes->ToBytes->FromBytes->ToBytes chains validated by TLC: re-encoding is Enc4 of the decoded value, decodes to the canonical value, second encoding identical",
+ "C06": ("6", "recorded FromBytes->ToBytes->FromBytes->ToBytes chains of DHCPv4 packets and DHCPv6 messages validated by TLC: the first decode equals Dec4/Dec6, the re-encoding reads (by the specification decoder) as the same value, decodes to an equal message, and the second encoding is identical",
          "trace validation of decode/encode chains against Dec4/Enc4/Canon"),
  "C07": ("6", "TLC enumerates every update/delete history in scope (MC_Dhcp4Ops) and the expected contents; each history is replayed through the real packet API, encoded 20 times; TLC checks bytes = Enc4(contents) and the independent Canonical() wire validator",
          "TLC-generated behaviours replayed into the real API + trace validation against Enc4/Canonical"),
@@ -24,6 +24,10 @@ CHECKS = {
          "TLC model check of RawUdp.tla + trace validation of written frames and read sequences"),
  "C19": ("6", "Label.tla: RFC 1035/4704 name-list decoder as a step machine (termination, totality, bounded work for every small byte string), encoder, and the Labels object (original bytes kept until the names change); every recorded rfc1035label FromBytes/ToBytes call, edit sequence on a parsed set, and decode through the DHCPv4/DHCPv6 options that carry names is validated by TLC under a three-way verdict (must accept / must reject / RFC-undefined)",
          "TLC model check of Label.tla step machine + trace validation of decode/encode/edit calls"),
+ "C02": ("6", "Dhcp6Wire.tla: RFC 8415 / per-option RFC layouts as declarative layout tables with one generic decoder and encoder (model-checked: TLV scanner step machine vs recursive operator for every small TLV area; Dec6(Enc6(m)) = m over nested representative values of every option type); every recorded ToBytes/FromBytes of generated messages and relay chains holding every option type the library parses is validated: wire = Enc6(value), Dec6(wire) = value = decoded value",
+         "TLC model check of Dhcp6Wire layout tables + trace validation of real ToBytes/FromBytes calls"),
+ "C05": ("6", "every recorded dhcpv6.FromBytes / ParseOption call (exhaustive small TLV areas, per-option payload-length sweeps, valid payloads cut/extended, truncations, length perturbations, random) must agree with Dec6 of spec/Dhcp6Wire.tla under a three-way verdict (accept with exactly this value / reject / RFC-undefined)",
+         "TLC exhaustive small-scope TLV scanner + trace validation of real FromBytes/ParseOption calls against Dec6"),
 }
 
 def main():
